@@ -4,7 +4,7 @@
     Hypotheses of the _partial theorems: the scanner lemmas (Proofs/Scan.v). *)
 From Coq Require Import List Bool ZArith.
 From JL Require Import Base.Json Base.Lits Base.F64 Base.Dec2Flt Base.Monad Model.JsOp Model.Ops Spec.Specs Spec.OpSpecs.
-From JL Require Import Proofs.Arith Proofs.OpsCorrect.
+From JL Require Import Proofs.Arith Proofs.OpsCorrect Proofs.Scan.
 From Coq Require Import String NArith ZArith.
 Local Open Scope string_scope.
 Import ListNotations.
@@ -15,15 +15,26 @@ Theorem C10_narrowing : forall f, to_number_value f = canonical_num f.
 Proof. exact to_number_value_spec. Qed.
 Print Assumptions C10_narrowing.
 
+(** the Number()-style operators need no hypothesis *)
+Theorem C10_number_style_operators :
+  (forall vs, op_max vs = arith_spec OMax vs) /\ (forall vs, op_min vs = arith_spec OMin vs) /\
+  (forall a b, op_div [a; b] = arith_spec ODiv [a; b]) /\ (forall a b, op_mod [a; b] = arith_spec OMod [a; b]) /\
+  (forall vs, (List.length vs = 1 \/ List.length vs = 2)%nat -> op_minus vs = arith_spec OSub vs).
+Proof.
+  pose proof str_to_number_spec as H1. repeat split; intros.
+  - apply op_max_spec, H1. - apply op_min_spec, H1.
+  - apply op_div_spec, H1. - apply op_mod_spec, H1. - apply op_minus_spec; assumption.
+Qed.
+Print Assumptions C10_number_style_operators.
+
 Theorem C10_operators_partial :
-  (forall s, str_to_number s = es_str_to_number s) ->
   (forall s, parse_float_string s = es_parse_float_str s) ->
   (forall vs, op_add vs = arith_spec OAdd vs) /\ (forall vs, op_mul vs = arith_spec OMul vs) /\
   (forall vs, op_max vs = arith_spec OMax vs) /\ (forall vs, op_min vs = arith_spec OMin vs) /\
   (forall a b, op_div [a; b] = arith_spec ODiv [a; b]) /\ (forall a b, op_mod [a; b] = arith_spec OMod [a; b]) /\
   (forall vs, (List.length vs = 1 \/ List.length vs = 2)%nat -> op_minus vs = arith_spec OSub vs).
 Proof.
-  intros H1 H2. repeat split; intros.
+  intros H2. pose proof str_to_number_spec as H1. repeat split; intros.
   - apply op_add_spec, H2. - apply op_mul_spec, H2. - apply op_max_spec, H1. - apply op_min_spec, H1.
   - apply op_div_spec, H1. - apply op_mod_spec, H1. - apply op_minus_spec; assumption.
 Qed.
